@@ -248,14 +248,14 @@ func existsPathEdges(fn *ssa.Function, from ssa.Instruction, target, stop func(s
 	return nil
 }
 
-func isReturn(in ssa.Instruction) bool { _, ok := in.(*ssa.Return); return ok }
-func isExit(in ssa.Instruction) bool {
-	switch in.(type) {
-	case *ssa.Return:
-		return true
-	}
-	return false
+// isReturn: a return of the function's own code. A function with a defer gets a synthetic "recover" block from go/ssa
+// (reached only when a deferred call recovers a panic) whose return hands back the result cells as they are; it is no
+// path of the code the rules reason about.
+func isReturn(in ssa.Instruction) bool {
+	_, ok := in.(*ssa.Return)
+	return ok && !(in.Parent() != nil && in.Parent().Recover != nil && in.Block() == in.Parent().Recover)
 }
+func isExit(in ssa.Instruction) bool { return isReturn(in) }
 
 // reachableBlocks from a block following all edges.
 func reachableFrom(b *ssa.BasicBlock) map[*ssa.BasicBlock]bool {
@@ -827,4 +827,10 @@ func (c *Ctx) ifaceReach(roots []*ssa.Function, pkgSuffix string) map[*ssa.Funct
 		})
 	}
 	return seen
+}
+
+// sameParam: v is the parameter p, also when go/ssa reads it back from the heap cell it spills a parameter into because a
+// closure of the function captures it.
+func sameParam(v ssa.Value, p ssa.Value) bool {
+	return v == p || (v != nil && paramBehind(v) == p)
 }
